@@ -98,6 +98,7 @@ pub fn encode_index(
     entries: &[IndexEntrySpec],
     dat_count: u32,
     populate_secondary: bool,
+    table_order: u8,
 ) -> EncodedFile {
     let mut e = Enc::new();
     let mut boundaries = vec![];
@@ -139,7 +140,9 @@ pub fn encode_index(
     debug_assert_eq!(e.pos(), 0x800);
     boundaries.push(e.pos());
 
-    // entry table, sorted by key as the game's writer does
+    // entry table: sorted by key as the game's writer does (0), in the order the entries were
+    // added (1: what a repacking tool that appends produces) or in descending key order (2). The
+    // statement speaks of an index that *contains* the hash; it promises no order.
     let mut rows: Vec<(u64, u32)> = entries
         .iter()
         .map(|s| {
@@ -152,7 +155,14 @@ pub fn encode_index(
             (key, entry_word(s.dat_id, s.offset))
         })
         .collect();
-    rows.sort();
+    match table_order {
+        0 => rows.sort(),
+        2 => {
+            rows.sort();
+            rows.reverse();
+        }
+        _ => {}
+    }
     for (i, (key, word)) in rows.iter().enumerate() {
         e.set_prefix(&format!("e{}.", i));
         if index2 {
